@@ -149,6 +149,20 @@ PROPS = {
              "non-trivial = every case (each word / segment is checked)",
         technique="Coq proof (word round-trip and exact limit guard; persisted segment round-trip; page alignment) + function-, byte- and API-level correspondence",
     ),
+    "C12": dict(
+        runs=[("history", "", "histrun", 300, 6000, 0)],
+        corr={"model:footer-segments", "model:persist-kind", "model:walk-chain", "model:revert-content", "model:revert",
+              "model:reopen", "model:reopen-footer", "driver-error", "harness-error"}, corr_held=False,
+        spec={"spec:round-content", "spec:walk-chain", "spec:previous-content-changed", "spec:previous-error",
+              "spec:revert-content", "spec:revert-refused", "spec:reopen-content"}, spec_held=False,
+        rule="6-13 steps per case over one store: persisted rounds (append, leveled partial compaction, forced full "
+             "compaction), full walks back from the current snapshot with SnapshotPrevious, SnapshotRevert to a footer "
+             "0-3 steps back (collection closed, as documented), close/reopen, and continuation with more rounds; "
+             "compared: the segment list of every footer written, the chain of footer offsets of every walk, the content "
+             "of every previous snapshot against what was recorded when it was current, the reverted footer against its "
+             "target, the reopened footer; non-trivial = a walk of length >= 1 or a successful revert",
+        technique="Coq proof (footer-chain model: walk after append/compaction/revert, immutability of older footers) + lock-step over previous/revert programs",
+    ),
     "C17": dict(runs=[], corr=set(), corr_held=False, spec=set(), spec_held=False, rule="", technique=""),
     "C11": dict(
         runs=[TREE + (360, 6000, 28)],
